@@ -208,16 +208,16 @@ Definition spec_read (w : world) (i name : nat) (flow nophase : bool) : rd :=
 
 (* ---------- cache-side primitives ---------- *)
 (* Stream.reset_cache: a new key and a new dict for object i *)
-Definition reset_cache1 (c : cstate) (i : nat) : cstate :=
+(* [pk = Some p]: the object's _thermo is replaced as well (_reset_thermo) *)
+Definition reset_cache1 (pk : option nat) (c : cstate) (i : nat) : cstate :=
   let co := cobj_of c i in
-  mkcs (upd (cobjs c) i (mkc (length (keys c)) (length (memos c)) (c_pkg co)))
+  mkcs (upd (cobjs c) i (mkc (length (keys c)) (length (memos c)) (match pk with Some p => p | None => c_pkg co end)))
        (keys c ++ [None]) (memos c ++ [[]]).
-Fixpoint reset_cache_list (c : cstate) (l : list nat) : cstate :=
-  match l with [] => c | i :: t => reset_cache_list (reset_cache1 c i) t end.
+Fixpoint reset_cache_list (pk : option nat) (c : cstate) (l : list nat) : cstate :=
+  match l with [] => c | i :: t => reset_cache_list pk (reset_cache1 pk c i) t end.
 (* class-dispatched reset_cache: MultiStream also resets every view in _streams *)
-Definition reset_cache (s : state) (c : cstate) (i : nat) : cstate :=
-  let c1 := reset_cache1 c i in
-  if is_multi s i then reset_cache_list c1 (map snd (o_views (obj_of s i))) else c1.
+Definition reset_cache (pk : option nat) (s : state) (c : cstate) (i : nat) : cstate :=
+  reset_cache_list pk c (i :: (if is_multi s i then map snd (o_views (obj_of s i)) else [])).
 (* a new object with fresh key / memo *)
 Definition new_cobj_fresh (c : cstate) (pkg : nat) : cstate :=
   mkcs (cobjs c ++ [mkc (length (keys c)) (length (memos c)) pkg]) (keys c ++ [None]) (memos c ++ [[]]).
@@ -460,7 +460,17 @@ Fixpoint find_view (p : phase) (l : list (phase * nat)) : option nat :=
 Fixpoint read_all (w : world) (l : list nat) : world :=
   match l with [] => w | j :: t => read_all (fst (get_property w j O true false)) t end.
 
-Definition step (w : world) (o : op) : world * obs :=
+(* object indices an operation mentions *)
+Definition op_objs (o : op) : list nat :=
+  match o with
+  | ONew _ _ _ _ _ | ONop => []
+  | ORead i _ _ _ | OSetT i _ | OSetP i _ | OSetPhase i _ | OSetFlow i _ _ _ | OScale i _ | OFmol i _ | OEmpty i
+  | OProxy i | OFlowProxy i | OCopy i | OUnlink i | OView i _ | OSetPhases i _ | OResetCache i | OSetPkg i _ => [i]
+  | OLink i j _ _ _ | OCopyLike i j | OCopyFlow i j | OCopyTC i j | OCopyPhase i j => [i; j]
+  | OMix i srcs _ _ => i :: srcs
+  end.
+
+Definition step_valid (w : world) (o : op) : world * obs :=
   let s := w_st w in let c := w_cs w in
   match o with
   | ONew flows ps T P pkg =>
@@ -491,7 +501,7 @@ Definition step (w : world) (o : op) : world * obs :=
   | OUnlink i =>
       match unlink s i with
       | (s1, Some e) => (mkw s1 c, BErr e)
-      | (s1, None) => (mkw s1 (reset_cache s1 c i), BOk)
+      | (s1, None) => (mkw s1 (reset_cache None s1 c i), BOk)
       end
   | OCopyLike i j => lift w (copy_like_11 s i j)
   | OCopyFlow i j => lift w (copy_flow s i j)
@@ -540,20 +550,22 @@ Definition step (w : world) (o : op) : world * obs :=
             if list_eqb Nat.eqb ps (i_phases im) then (w, BOk)
             else match multi_rephase s i ps with
                  | (s1, Some e) => (mkw s1 c, BErr e)
-                 | (s1, None) => (mkw s1 (reset_cache s1 c i), BOk)
+                 | (s1, None) => (mkw s1 (reset_cache None s1 c i), BOk)
                  end
           else (mkw (single_to_multi s i ps) c, BOk)
       end
-  | OResetCache i => (mkw s (reset_cache s c i), BOk)
+  | OResetCache i => (mkw s (reset_cache None s c i), BOk)
   | OSetPkg i pkg =>
       (* _reset_thermo(thermo), thermo is not self._thermo (resolved by the harness), same chemical order:
-         thermo replaced, indexer.reset_chemicals, reset_cache(), views get new indexers and the package *)
-      let c1 := reset_cache s c i in
-      let setp cc n := let co := cobj_of cc n in mkcs (upd (cobjs cc) n (mkc (c_k co) (c_m co) pkg)) (keys cc) (memos cc) in
-      let c2 := fold_left setp (i :: (if is_multi s i then map snd (o_views (obj_of s i)) else [])) c1 in
-      (mkw (reset_chem s i) c2, BOk)
+         thermo replaced, indexer.reset_chemicals, reset_cache() (self and views), views get new indexers and the
+         package; no read happens in between, so package and fresh memo are installed together per object *)
+      (mkw (reset_chem s i) (reset_cache (Some pkg) s c i), BOk)
   | ONop => (w, BOk)
   end.
+
+(* a Python reference always denotes an existing object: operations naming an index outside the table are rejected *)
+Definition step (w : world) (o : op) : world * obs :=
+  if forallb (fun i => Nat.ltb i (length (cobjs (w_cs w)))) (op_objs o) then step_valid w o else (w, BErr EIndex).
 
 Fixpoint run (w : world) (ops : list op) : world * list obs :=
   match ops with
